@@ -6,10 +6,10 @@ CLAIMED = {
    "Seeded search over buffer edit histories (sampled prefixes and single-token edits of generated configurations, half-typed fragments), reader/hook/staleness faults and map-order schedules; every public query entry point runs at the visited cursor offsets inside a simulator task; a recovered panic, a tick-budget overrun or a worker process killed by a fatal error is a violation. Exploration, not proof: totality over an infinite input space can only be sampled; violations replay exactly from the minimised scenario file.",
    "Trusts the stub language server as a model of a deployment and the generator's reach (schemas/config shapes listed in DESIGN.md §3); map order is owned only inside hcl-lang's sources."),
  "C02": ("exploration", "§4 C02", "deterministic simulation supplying states (typed/edited buffers after the indexer caught up, multi-path worlds); per-result range invariant by reflection walk",
-   "A reflection walk finds every hcl.Range in every result of every query at quiescent states; each must name a file of the path it is reported for, satisfy 0<=start<=end<=len and carry the independently recomputed line/column (grapheme clusters) of its byte offsets. The simulator contributes the states and the multi-path attribution; the invariant itself is a per-result monitor. Two families of genuine findings (zero End copied from the parser's recovery; byte-based column arithmetic) are recorded in KNOWN_FINDINGS.json.",
+   "A reflection walk finds every hcl.Range in every result of every query at states whose collected sets are current (with and without a reader fault on another path); each must name a file of the path it is reported for, satisfy 0<=start<=end<=len and carry the independently recomputed line/column (grapheme clusters) of its byte offsets. Besides the offset sweep, go-to-definition is asked on every stored origin and find-references on every stored definition; worlds use shared or distinct file names across paths. The simulator contributes the states, faults and the multi-path attribution; the invariant itself is a per-result monitor. Three families of genuine findings (zero End copied from the parser's recovery; byte-based column arithmetic; the HCL scanner's token-local column count, recognised by lexing the file) are recorded in KNOWN_FINDINGS.json.",
    "Ranges the caller put into the schema (Targets.Range, DirectOrigin.TargetRange) and ranges produced by the caller's lens functions are exempt as the statement says; columns are only compared at grapheme boundaries."),
  "C03": ("exploration", "§4 C03", "deterministic simulation: differential execution under controlled map-iteration schedules and query histories",
-   "Each query is executed under the canonical map order on a fresh decoder, then under 8 other map-order schedules (desc, rotate, shuffle, pin), after a sequence of other queries on a long-lived decoder, and again on a fresh decoder; canonical results (element order kept, diagnostics as multisets) must be identical. The map-order seam turns 'some runtime order breaks it' into a deterministic, replayable failure.",
+   "Each query is executed under the canonical map order on a fresh decoder, then under 8 other map-order schedules (desc, rotate, shuffle, pin), after a sequence of other queries on a long-lived decoder, and again on a fresh decoder; canonical results (element order kept, diagnostics as multisets) must be identical. The map-order seam turns 'some runtime order breaks it' into a deterministic, replayable failure. Should the library call completion hooks from goroutines of its own, the stub hooks (which know the goroutine that issued the query) hold one hook back until the other returned, in the order the query's policy names, so that finishing order is a simulator decision as well (inert on the library as it stands).",
    "Map ranges inside hcl/v2, go-cty and the standard library keep the runtime's order (they sort where it matters); only hcl-lang's range-over-map sites are scheduled."),
  "C04": ("exploration", "§4 C04", "deterministic simulation: query histories under faults with a deep structural snapshot oracle",
    "A reflection snapshot (unexported fields, pointer-aliasing shape, func values by symbol, package-level variables) of every PathContext, the DecoderContext and the library's package variables is compared across a long history of queries on one decoder - including error-returning queries under reader/hook faults, the limit knob and prefill - after every 16th query (every query when replaying), and the parsed syntax trees at the end of each check.",
@@ -24,16 +24,16 @@ CLAIMED = {
    "On generated configurations (cleanly parsed, indexer caught up) the candidate labels at cursors in body white space, inside attribute names / block types (typed prefix) and inside completable labels are compared exactly with the model of the effective schema (static body overlaid with the dependent body selected by labels / attribute values / defaults / references / second level, extensions, maxima, declared attributes), under varying map order; a sample of candidates is then accepted as an edit event and validation must not report the inserted item.",
    "The model says nothing (may) where the statement is silent: key attributes written as non-literal expressions, half-resolved second level, content of dynamic blocks, attribute/block name clashes, whether 'dynamic' is offered when no block type exists."),
  "C08": ("exploration", "§4 C08 / §12.2", "deterministic simulation supplying states, collected target sets and accept-candidate edit events; soundness predicates and round trip through go-to-definition",
-   "At cursors inside attribute values: every reference candidate is the address of a collected declaration, starts with the typed text, uses a block-local address only inside its block (self.* only where enabled), is not the attribute being edited and - in direct values - fits a reference-admitting constraint of the attribute; function candidates are known functions with the prefix; keyword/boolean candidates are admitted by the constraint; accepting a fitting reference candidate (edit event, re-collection) must resolve to the declaration.",
-   "Type/scope fit and keyword/boolean admission are only decided where the cursor is in the attribute's direct value (inside operators, index keys, function arguments other types are expected); the target set is the library's own collection (C09 checks that)."),
+   "At cursors inside attribute values: every reference candidate is the address of a collected declaration, starts with the typed text, uses a block-local address only inside its block (self.* only where enabled), is not the attribute being edited and - in direct values, and in the empty argument slot behind the last argument of a multi-line call of a known function (there: the next parameter's type) - fits the constraint in force; function candidates are known functions with the prefix; keyword/boolean candidates are admitted by the constraint; accepting a fitting reference candidate (edit event, re-collection) must resolve to the declaration.",
+   "Type/scope fit and keyword/boolean admission are only decided where the cursor is in the attribute's direct value or in such an argument slot (inside operators, index keys and written arguments other types are expected); the target set is the library's own collection (C09 checks that)."),
  "C09": ("exploration", "§4 C09 / §12.2", "deterministic simulation (map-order schedules) over generated configurations; structural invariants plus exactness of block/attribute targets against the generator's ground truth",
-   "CollectReferenceTargets under varying map order: nested targets extend the parent's address by exactly one step, list indexes follow source order, elements of written values lie inside the value; every written block/attribute the effective schema marks addressable has a target with the address built from its steps, its own extent as range and its header/name as definition range; every top-level target belongs to such a declaration (nothing for unknown items).",
+   "CollectReferenceTargets under varying map order: nested targets extend the parent's address by exactly one step, list indexes follow source order, elements of written values lie inside the value and an attribute step of such an element is a name a reference could write (any other key is an index step); every written block/attribute the effective schema marks addressable has a target with the address built from its steps, its own extent as range and its header/name as definition range; every top-level target belongs to such a declaration (nothing for unknown items).",
    "Types of inferred bodies and the representative range of multi-block collection targets are not compared; addresses without steps or with empty steps, keyword/literal-value/type-declaration attributes and traversals declared by address-carrying reference constraints are left open."),
  "C10": ("exploration", "§4 C10 / §12.2", "deterministic simulation (map-order schedules) over generated expressions; Must/May origin model",
    "The origin model walks every generated expression under the constraint of its attribute in the effective schema (any-expression with type-aware operators and function parameters, reference, collections, objects, one-of as union) and lists the origins the statement requires and the spans it leaves open; CollectReferenceOrigins must contain each required origin exactly once, nothing outside Must/May, ordered by file and position, under three map orders.",
    "for-expressions, conditionals, unknown functions, literal index keys and type-incorrect operations are 'may'; iterator variables are not references."),
  "C11": ("exploration", "§4 C11 / §12.2", "deterministic simulation: multi-path worlds, stale target/origin sets from delayed indexer jobs, reader faults; inverse relation over the recorded lookups",
-   "For every collected origin (fresh or stale sets, reader faults on other paths held constant over the pair of calls, cloned paths with identical offsets): every declaration go-to-definition reports with a definition range must report the origin back when find-references is asked there; count/each/self resolve only inside their own block and file; origins pointing into another path resolve in that path only.",
+   "For every collected origin (fresh or stale sets, reader faults on other paths held constant over the pair of calls, cloned paths with identical offsets, two language ids serving one directory, permuted Paths() and permuted stored-origin order): every declaration go-to-definition reports with a definition range must report the origin back when find-references is asked there, and conversely every origin find-references reports must resolve back to the declarations asked about and must exist in the stored set of the path it names; count/each/self resolve only inside their own block and file; origins pointing into another path resolve in that path (directory and language id) only and never in a path that cannot be read.",
    "Exactness of address/type matching against an independent match model is not claimed; lookups under stale sets are skipped when the recomputed position falls outside the stored definition lines."),
  "C15": ("exploration", "§4 C15 / §12.2", "deterministic simulation (map-order schedules, permuted validators) over generated violations; diagnostic model compared as a multiset",
    "The diagnostic model lists, from the generated configuration and the effective schema of every body, the unexpected attributes/blocks (none below a block whose dependent body was not resolved), missing required attributes, surplus/missing labels, too many/too few blocks (dynamic blocks satisfy minima) and deprecations; ValidateFile and Validate must return exactly that multiset of (severity, summary, subject).",
@@ -45,8 +45,8 @@ CLAIMED = {
    "For every path inside the fragment both syntaxes express, a twin store is built from the same model with the files rendered as HCL JSON (pretty or one line); absolute targets (address, type, scope, nesting), origins (addresses) and the schema-known outline of the two must agree.",
    "Left open: label counts differing from the schema, key attributes and address steps written as references, blocks inside any-attribute bodies, string literals where a reference is expected (legacy bare references); one recorded finding (quoted index keys inside JSON strings)."),
  "C12": ("exploration", "§4 C12", "deterministic simulation supplying states; per-offset hover invariant against the renderer's node table",
-   "HoverAtPos at every offset of quiescent states: nothing/an error, or non-empty content with a range of the file that contains the cursor; on attribute names, block types and labels (positions known from the renderer of the generated configuration) the content names the element and the range is the whole attribute / the type keyword / the label.",
-   "Description text of the effective schema is not compared yet; 'innermost sub-expression' is checked as containment only."),
+   "HoverAtPos at every offset of quiescent states: nothing/an error, or non-empty content with a range of the file that contains the cursor; on attribute names, block types and labels (positions known from the renderer of the generated configuration) the content names the element, carries the description the effective schema (model) gives it and no other element's, and the range is the whole attribute / the type keyword / the label. Inside an object value written under an object constraint: the key of a declared attribute names it; an item whose key is computed or undeclared is described by the object itself (its range).",
+   "Containment is half-open (End > cursor). 'Innermost sub-expression' is modelled for object items only, elsewhere it is checked as containment; label descriptions are checked as 'own or a dependent body's'."),
  "C13": ("exploration", "§4 C13", "deterministic simulation: edit histories and stale reference sets; ordered/disjoint/non-empty/type-set invariant",
    "SemanticTokensInFile on every state of typing histories, single-token edits and staleness windows (targets/origins collected from an older text), under varying map order: tokens sorted by start, pairwise disjoint, non-empty, inside the file and of an advertised type.",
    "Exactness against a token model is not claimed by this check yet."),
